@@ -8,6 +8,8 @@ isolation   : instances A and B run interleaved (every interleaving of their rou
 domain      : the user's domain list is compared (structure identity and term identity of the
               bounds) before and after a run.
 """
+import numpy as np
+
 from harness import c01
 from harness.common import sym_box, arity
 from harness.runlevel import build, params_of, partitions_of
@@ -51,6 +53,9 @@ def configs(tier, seed):
                     if algo == "Zooming" and part == "RB":
                         continue
                     out.append({"name": "dom-%s-%s-d2-reversed-range" % (algo, part), "mode": "dom", "algo": algo, "part": part, "d": 2, "T": 3, "reversed": True, "cost": 6})
+    for algo, part, d, T in (("T_HOO", "B", 2, 3), ("T_HOO", "K3", 2, 3), ("DOO", "B", 2, 4), ("SOO", "RB", 2, 3), ("SequOOL", "DB", 2, 3), ("HCT", "B", 1, 4), ("Zooming", "B", 2, 2),
+                             ("StoSOO", "RK3", 1, 3), ("POO", "B", 2, 3)):
+        out.append({"name": "det-%s-%s-d%d-ndarray-domain-T%d" % (algo, part, d, T), "mode": "det", "algo": algo, "part": part, "d": d, "T": T, "ndarray": True, "cost": 12 * d})
     for algo in ("T_HOO", "SOO", "HCT"):
         out.append({"name": "det-%s-B-d3-degenerate-coordinate-T3" % algo, "mode": "det", "algo": algo, "part": "B", "d": 3, "T": 3, "degenerate": 1, "cost": 30})
     out.append({"name": "det-StroquOOL-B-n200-T18", "mode": "det", "algo": "StroquOOL", "part": "B", "d": 1, "T": 18, "params": {"n": 200}, "cost": 60})
@@ -124,6 +129,8 @@ def setup(mods_):
 
 
 def snapshot(dom):
+    if isinstance(dom, np.ndarray):
+        return (dom, [(None, dom[i][0], dom[i][1]) for i in range(len(dom))])
     return (dom, [(row, row[0], row[1]) for row in dom])
 
 
@@ -132,7 +139,7 @@ def check_domain(ctx, dom, snap, tag):
     ok = dom is obj and len(dom) == len(rows)
     if ok:
         for row, (r0, lo, hi) in zip(dom, rows):
-            ok = ok and row is r0 and len(row) == 2 and ctx.same(row[0], lo) and ctx.same(row[1], hi)
+            ok = ok and (r0 is None or row is r0) and len(row) == 2 and ctx.same(row[0], lo) and ctx.same(row[1], hi)
     ctx.check(tag, ok, "the domain object passed by the user was modified")
 
 
@@ -189,6 +196,10 @@ def run(ctx, cfg):
     if cfg.get("degenerate") is not None:
         # a coordinate fixed by the user: [v, v] (only reproducibility and non-mutation are claimed on such a box)
         dom[cfg["degenerate"]][1] = dom[cfg["degenerate"]][0]
+    if cfg.get("ndarray"):
+        # the domain handed over as a 2-D NumPy array (rows [lo, hi]) instead of a list of lists: slices of it are views, so a
+        # shallow copy inside the library writes into the user's array (seed S-C14-8)
+        dom = np.array(dom, dtype=object) if ctx.symbolic else np.array([[float(v) for v in row] for row in dom], dtype=float)
     snap = snapshot(dom)
     if mode == "dom" and cfg.get("reversed"):
         # the last range is written [high, low] (the repository's own tests do that): only non-mutation is claimed
